@@ -333,7 +333,7 @@ impl<'a, P: Pe<'a>> By<'a, P> {
 			},
 			None => {
 				// Name not found
-				let ord = (index as u32 + self.exp.image.Base) as Ordinal;
+				let ord = (index as u32).wrapping_add(self.exp.image.Base) as Ordinal;
 				Ok(Import::ByOrdinal { ord })
 			},
 		}
